@@ -11,6 +11,7 @@ C2 = {'name': 'C', 'levels': ['c0', 'c1']}
 C3 = {'name': 'C', 'levels': ['c0', 'c1', 'c2']}
 AW = {'name': 'A', 'levels': [['a0', 2], 'a1']}
 CW = {'name': 'C', 'levels': [['c0', 2], 'c1']}
+N2 = {'name': 'N', 'levels': [0, 1]}
 
 
 def within(name, srcs, preds=(('eq',), ('ne',)), names=None):
@@ -100,6 +101,19 @@ def fixed_corpus():
     add(D([A2, B2, C2, window('W', 'C', 2, start=0, preds=(('first', 'c0'), 'else'))], cross('ABCW', 'AB')))
     add(D([A2, B2, C2, window('W', 'C', 3, start=1, preds=(('first', 'c0'), 'else'))], cross('ABCW', 'AB')))
     add(D([A2, B2, C2, transition('Q', 'C')], cross('ABCQ', 'AB')))
+    # level names that are numbers, 0 included (falsy names must not be taken for "no level")
+    add(D([N2, B2], cross('NB', 'NB', [['AtMostKInARow', 1, 'N', 0]])))
+    add(D([N2, B2, C2], cross('NBC', 'BC', [['Exclude', 'N', 0]])))
+    add(D([A2, N2], cross('AN', 'A', [['Pin', 0, 'N', 0]])))
+    add(D([N2, B2, within('G', ['N'], preds=(('first', 0), 'else'))], cross('NBG', 'BG', [['ExactlyK', 1, 'N', 0]])))
+    # a crossed derived factor whose combinations have different numbers of completions (uncrossed 3-level source),
+    # with a partial extra round
+    add(D([A2, C3, within('G', ['A', 'C'], preds=(('table', [['a0', 'c0'], ['a1', 'c1']]), 'else'))],
+          cross('ACG', 'AG', [['MinimumTrials', 5]])))
+    add(D([A2, C3, within('G', ['A', 'C'], preds=(('table', [['a0', 'c0'], ['a1', 'c1']]), 'else'))],
+          repeat(cross('ACG', 'AG'), [['MinimumTrials', 5]])))
+    # a two-trial preamble over a 3-level factor (3**2 preambles, not 3*2)
+    add(D([A3, window('W', 'A', 3)], cross('AW', 'W')))
     # a window wider than the whole sequence (two trials), starting early: shifted source indices run past the grid
     add(D([A2, B2, window('W', 'B', 3, start=1)], cross('ABW', 'A', [['ExactlyK', 1, 'W', 'w1']])))
     add(D([A2, B2, window('W', 'B', 3, start=1)],
@@ -127,11 +141,17 @@ def fixed_corpus():
     add(D([A2, B2, CONG], cross('ABG', 'AB', [['Exclude', 'G', 'g0']], rcc=True)))
     add(D([A3, B2], cross('AB', 'AB', [['Exclude', 'A', 'a2']], rcc=False)))
     add(D([A3, B2, C2], cross('ABC', 'AB', [['Exclude', 'A', 'a2'], ['MinimumTrials', 6]], rcc=False)))
+    # an excluded combination of a weighted crossed level counts with its weight (8 - 2*... trials)
+    add(D([AW, B2], cross('AB', 'AB', [['Exclude', 'A', 'a0']], rcc=False)))
+    add(D([AW, B3], cross('AB', 'AB', [['Exclude', 'B', 'b2']], rcc=False)))
     add(D([A2, B2, CONG], cross('ABG', 'AG', rcc=False)))
     add(D([A2, B2, CONG_DEGENERATE], cross('ABG', 'AG', rcc=False)))
     add(D([A2, B2, CONG_DEGENERATE], cross('ABG', 'AB', rcc=False)))
     add(D([A3, B3], cross('AB', 'A', [['Sequential', 'A']])))
     add(D([A3, B2], cross('AB', 'AB', [['Sequential', 'B']])))
+    # Sequential on a factor of a crossing that has a preamble trial (the cycle starts after the preamble)
+    add(D([A2, C2, TRA], cross('ACR', 'CR', [['Sequential', 'C']])))
+    add(D([A2, C3, TRA], cross('ACR', 'AR', [['Sequential', 'C']])))
     add(D([A3, B3], cross('AB', 'A', [['LatinSquare', ['A', 'B']]])))
     add(D([A3, B3, C3], cross('ABC', 'A', [['LatinSquare', ['A', 'B', 'C']], ['MinimumTrials', 6]])))
     add(D([A2, B2, C2], cross('ABC', 'AB', [['MinimumTrials', 10], ['AtMostKInARow', 2, 'A', 'a0']])))
